@@ -825,16 +825,16 @@ Definition domain_text : str :=
   ++ bs "route add d *.h.com/p http://d/".
 Example total_nonvacuous :
   (forall ds, parse pw_wit domain_text = Ok ds -> Forall route_ok (reached canon_wit glob_wit [] ds))
-  /\ (exists bt, fb_wit domain_text = Ok bt).
+  /\ fb_wit domain_text <> Panic.
 Proof.
-  split.
-  - intros ds Hds. apply route_ok_forallb.
+  assert (H : forall ds, parse pw_wit domain_text = Ok ds -> Forall route_ok (reached canon_wit glob_wit [] ds)).
+  { intros ds Hds. apply route_ok_forallb.
     assert (E : match parse pw_wit domain_text with
                 | Ok ds => forallb (fun r => Nat.leb (length (r_targets r)) 1000) (reached canon_wit glob_wit [] ds)
                 | _ => false end = true) by (vm_compute; reflexivity).
-    rewrite Hds in E. exact E.
-  - assert (E : is_ok (fb_wit domain_text) = true) by (vm_compute; reflexivity).
-    destruct (fb_wit domain_text) as [bt| |]; try discriminate. now exists bt.
+    rewrite Hds in E. exact E. }
+  split; [exact H|].
+  apply (full_build_total pw_wit canon_wit glob_wit stable_order stable_perm domain_text H).
 Qed.
 
 (* ====================================================================================== *)
